@@ -303,7 +303,124 @@ def rule_ode_ownership(ctx, rule='R01.11'):
     ctx.covered(rule, 'the N-body ODE registered by BS is released before other integrators advance the registered ODEs', n, floor=1)
 
 
+def rule_force_terms_flag(ctx, rule='R01.12'):
+    """R01.12: r->gravity_ignore_terms tells the generic gravity routines which pair terms to leave out because the
+    integrator's Kepler step accounts for them (WHFast, SABA, EOS set 1 or 2). The flag lives in the simulation and
+    outlives the integrator that set it, so every integrator whose forces come from a gravity routine that reads the flag
+    has to set it at the start of its step (part1, or a function part1 calls in the same file). Exempt are integrators
+    whose part1 selects a private gravity mode whose routine does not read the flag. Sibling agreement over the part1
+    slot of reb_integrator_part1."""
+    from ..cfront import walk, strip, render, line_of, callee_name, is_assign
+    tus = cfront.load_tus()
+    disp = tus['integrator.c'].func('reb_integrator_part1')
+    targets = {}
+    cur = None
+    sw = [x for x in walk(cfront.body(disp)) if x.get('kind') == 'SwitchStmt']
+    anchor(len(sw) == 1, 'switch over r->integrator in reb_integrator_part1')
+    for st in sw[0]['inner'][-1].get('inner', []):
+        node = st
+        while node.get('kind') in ('CaseStmt', 'DefaultStmt'):
+            if node['kind'] == 'CaseStmt':
+                for x in walk(node['inner'][0]):
+                    if x.get('kind') == 'DeclRefExpr' and x['referencedDecl'].get('kind') == 'EnumConstantDecl':
+                        cur = x['referencedDecl']['name']
+            else:
+                cur = None
+            node = node['inner'][-1]
+        for e in walk(node):
+            if e.get('kind') == 'CallExpr' and cur and (callee_name(e) or '').endswith('_part1'):
+                targets[cur] = callee_name(e)
+    anchor(len(targets) >= 10, 'part1 functions dispatched by reb_integrator_part1 (found %d)' % len(targets))
+    # gravity modes whose routine reads the flag: case labels of the switch in reb_calculate_acceleration whose statements mention it
+    grav = tus['gravity.c'].func('reb_calculate_acceleration')
+    flag_locals = {'r.gravity_ignore_terms'}
+    for d in walk(cfront.body(grav)):
+        if d.get('kind') == 'VarDecl' and 'init' in d:
+            init = [c for c in d.get('inner', []) if c.get('kind') not in ('FullComment',)]
+            if init and 'gravity_ignore_terms' in render(init[-1]):
+                flag_locals.add(d['name'])
+    reads = set()
+    gsw = [x for x in walk(cfront.body(grav)) if x.get('kind') == 'SwitchStmt' and 'gravity' in render(x['inner'][0] if x['inner'][0].get('kind') else x['inner'][1])]
+    anchor(gsw, 'switch over r->gravity in reb_calculate_acceleration')
+    cur = None
+    for st in gsw[0]['inner'][-1].get('inner', []):
+        node = st
+        while node.get('kind') in ('CaseStmt', 'DefaultStmt'):
+            if node['kind'] == 'CaseStmt':
+                for x in walk(node['inner'][0]):
+                    if x.get('kind') == 'DeclRefExpr' and x['referencedDecl'].get('kind') == 'EnumConstantDecl':
+                        cur = x['referencedDecl']['name']
+            else:
+                cur = None
+            node = node['inner'][-1]
+        if cur and any((x.get('kind') == 'DeclRefExpr' and x['referencedDecl'].get('name') in flag_locals) or (x.get('kind') == 'MemberExpr' and x.get('name') == 'gravity_ignore_terms') for x in walk(node)):
+            reads.add(cur)
+    anchor('REB_GRAVITY_BASIC' in reads, 'gravity modes that read gravity_ignore_terms (found %s)' % sorted(reads))
+    n = 0
+    samples = []
+    for const, fname in sorted(targets.items()):
+        cfile = next((c for c, tu in tus.items() if fname in tu.funcs and cfront.basename(tu.funcs[fname].get('_locfile') or tu.funcs[fname].get('_file')) == c), None)
+        anchor(cfile is not None, 'definition of %s' % fname)
+        tu = tus[cfile]
+        seen, todo = set(), [(fname, 0)]
+        sets_flag = private = None
+        calls_forces = False
+        while todo:
+            f_, d_ = todo.pop()
+            if f_ in seen or f_ not in tu.funcs or cfront.body(tu.funcs[f_]) is None:
+                continue
+            seen.add(f_)
+            for e in walk(cfront.body(tu.func(f_))):
+                if is_assign(e) and e['opcode'] == '=':
+                    lv = render(e['inner'][0]).replace(' ', '')
+                    if lv == 'r.gravity_ignore_terms' and sets_flag is None:
+                        sets_flag = '%s (src/%s:%s)' % (f_, cfile, line_of(e))
+                    if lv == 'r.gravity':
+                        mode = render(e['inner'][1]).replace(' ', '').strip('()')
+                        if mode.startswith('REB_GRAVITY_') and mode not in reads and mode != 'REB_GRAVITY_NONE':
+                            private = mode
+                if e.get('kind') == 'CallExpr' and callee_name(e) in tu.funcs and d_ < 2 and cfront.basename(tu.funcs[callee_name(e)].get('_locfile') or tu.funcs[callee_name(e)].get('_file')) == cfile:
+                    todo.append((callee_name(e), d_ + 1))
+        n += 1
+        where = 'src/%s %s' % (cfile, fname)
+        if not (sets_flag or private):
+            # part1 switches the generic force evaluation off (gravity = NONE) and the integrator evaluates forces itself:
+            # then every evaluation in its file has to be preceded, in the same function, by an assignment of the flag
+            off = any(is_assign(e) and render(e['inner'][0]).replace(' ', '') == 'r.gravity' and 'REB_GRAVITY_NONE' in render(e['inner'][1])
+                      for f_ in seen for e in walk(cfront.body(tu.func(f_))))
+            if off:
+                evals = ok = 0
+                for f_, fn_ in tu.funcs.items():
+                    if cfront.body(fn_) is None or cfront.basename(fn_.get('_locfile') or fn_.get('_file')) != cfile:
+                        continue
+                    b_ = cfront.body(tu.func(f_))
+                    sets = [line_of(e) for e in walk(b_) if is_assign(e) and render(e['inner'][0]).replace(' ', '') == 'r.gravity_ignore_terms']
+                    for e in walk(b_):
+                        if e.get('kind') == 'CallExpr' and callee_name(e) in ('reb_simulation_update_acceleration', 'reb_calculate_acceleration'):
+                            evals += 1
+                            ok += 1 if any(l_ <= line_of(e) for l_ in sets) else 0
+                if evals and evals == ok:
+                    sets_flag = 'before each of its %d own force evaluations (generic evaluation switched off in part1)' % evals
+        if sets_flag or private:
+            samples.append('%s: %s' % (const, sets_flag or ('private gravity mode ' + private)))
+            continue
+        if const in FLAG_EXEMPT:
+            ctx.note('%s: %s does not set gravity_ignore_terms - %s' % (rule, fname, FLAG_EXEMPT[const]))
+            continue
+        ctx.report(rule, '%s:flag' % fname, where,
+                   '%s (selected by %s) neither sets r->gravity_ignore_terms nor selects a private gravity mode: after steps with WHFast, SABA or EOS the flag still says 1 or 2 and the generic gravity routine leaves the star-planet terms out of this integrator\'s forces'
+                   % (fname, const))
+    ctx.covered(rule, 'integrators reached through reb_integrator_part1 set gravity_ignore_terms or use a private gravity mode (modes reading the flag: %s)' % ', '.join(sorted(reads)), n, floor=10, samples=samples[:6])
+
+
+FLAG_EXEMPT = {
+    'REB_INTEGRATOR_WHFAST512': 'its part1 performs the whole step with its own AVX512 interaction kernels; the acceleration computed by the generic routine is not used',
+    'REB_INTEGRATOR_NONE': 'no integration',
+}
+
+
 def run(ctx):
+    rule_force_terms_flag(ctx)
     rule_ode_ownership(ctx)
     from . import c03 as _c03
     _c03.rule_mass_parameter(ctx, _c03.rule_scope(ctx))   # R03.3: every caller hands the Kepler solver G times a mass (one factor of G)
